@@ -46,6 +46,9 @@ def _prepare_environment():
     deps = os.path.join(VERIF, ".deps")
     if os.path.isdir(deps):
         sys.path.append(deps)
+    # evo logs warnings; without configured handlers they would go to stderr through logging.lastResort
+    import logging
+    logging.lastResort = logging.NullHandler()
     # first import writes ~/.evo/settings.json and announces it on stdout: keep our stdout clean
     import contextlib
     import io
